@@ -612,18 +612,11 @@ extern const MPT_STRUCT(named_traits) *mpt_type_metatype_add(const char *name)
 			errno = EINVAL;
 			return 0;
 		}
-		while (ext) {
-			int i, max;
-			for (i = 0, max = ext->used; i < max; i++) {
-				elem = ext->traits[i];
-				if (elem->name && !strcmp(elem->name, name)) {
-					errno = EINVAL;
-					return 0;
-				}
-			}
-			ext = ext->next;
+		/* name (or the type its alias stands for) must not be registered for any kind */
+		if (mpt_named_traits(name, -1)) {
+			errno = EINVAL;
+			return 0;
 		}
-		ext = meta_types;
 	}
 	pos = MPT_ENUM(_TypeMetaPtrBase);
 	
@@ -685,13 +678,10 @@ extern const MPT_STRUCT(named_traits) *mpt_type_interface_add(const char *name)
 	}
 	
 	if (name) {
-		int i;
-		for (i = 0; i < interface_pos; i++) {
-			elem = interface_types[i];
-			if (elem && elem->name && !strcmp(elem->name, name)) {
-				errno = EINVAL;
-				return 0;
-			}
+		/* name (or the type its alias stands for) must not be registered for any kind */
+		if (mpt_named_traits(name, -1)) {
+			errno = EINVAL;
+			return 0;
 		}
 		nlen = strlen(name);
 		if (nlen++ < 4) {
